@@ -53,16 +53,16 @@ Qed.
 
 (* the judgement of the copy: whatever the result *)
 Definition dc (N0 : N) (w : world) : world -> Prop := fun w' =>
-  Closed w' /\ ext w w' /\ frozen w w' /\ (IncNew N0 w -> IncNew N0 w').
+  Closed w' /\ ext w w' /\ frozen w w' /\ (IncNew N0 w -> IncNew N0 w') /\ w_models w' = w_models w.
 Definition dcpost (N0 : N) (w : world) : out id -> world -> Prop := fun r w' =>
   dc N0 w w' /\ match r with OK c => w_next w <= c /\ c < w_next w' | ER _ => True end.
 
 Lemma dc_refl N0 w : Closed w -> dc N0 w w.
-Proof. intros C. split; [exact C|]. split; [apply ext_refl|]. split; [apply frozen_refl|auto]. Qed.
+Proof. intros C. split; [exact C|]. split; [apply ext_refl|]. split; [apply frozen_refl|]. split; [auto|reflexivity]. Qed.
 Lemma dc_trans N0 a b c : dc N0 a b -> dc N0 b c -> dc N0 a c.
 Proof.
-  intros (C1 & X1 & F1 & I1) (C2 & X2 & F2 & I2). split; [exact C2|]. split; [eapply ext_trans; eauto|].
-  split; [eapply frozen_trans; eauto; apply X1|auto].
+  intros (C1 & X1 & F1 & I1 & M1) (C2 & X2 & F2 & I2 & M2). split; [exact C2|]. split; [eapply ext_trans; eauto|].
+  split; [eapply frozen_trans; eauto; apply X1|]. split; [auto|congruence].
 Qed.
 
 Lemma copy_attrs_ok w ty version : etype_ok T ty -> forall attrs acc, rd (copy_attrs T ty version attrs acc) w (fun _ => True).
@@ -81,8 +81,8 @@ Lemma dc_set_new N0 w0 w c n n' : Closed w -> w_next w0 <= c -> w_nodes w c = So
   (forall y, In (CElem y) (n_content n') -> In (CElem y) (n_content n) \/ c < y) ->
   dc N0 w0 w -> dc N0 w0 (wset w c n').
 Proof.
-  intros C Lc E NO KID (C0 & X0 & F0 & I0). assert (L : c < w_next w) by (apply (cl_alloc _ _ _ _ C); congruence).
-  split; [apply Closed_wset; auto|]. split; [eapply ext_trans; [exact X0|apply ext_wset]|]. split.
+  intros C Lc E NO KID (C0 & X0 & F0 & I0 & M0). assert (L : c < w_next w) by (apply (cl_alloc _ _ _ _ C); congruence).
+  split; [apply Closed_wset; auto|]. split; [eapply ext_trans; [exact X0|apply ext_wset]|]. split; [|split; [|exact M0]].
   - intros x Lx. cbn [wset w_nodes]. rewrite upd_other; [apply F0; exact Lx|]. intros ->. lia.
   - intros INC x nx y Lx Ex IN. cbn [wset w_nodes] in Ex. unfold upd in Ex. destruct (x =? c) eqn:EX.
     + apply N.eqb_eq in EX. subst x. injection Ex as <-. destruct (KID y IN) as [H|H]; [eapply (I0 INC); eauto|exact H].
@@ -103,7 +103,7 @@ Proof.
   assert (C1 : Closed w1).
   { apply Closed_walloc; [exact C|]. split; [exact ET|]. split; [exact NM|]. cbn. split; [intros y []|]. split; [intros d []|exact I]. }
   assert (D1 : dc N0 w w1).
-  { split; [exact C1|]. split; [apply ext_walloc|]. split.
+  { split; [exact C1|]. split; [apply ext_walloc|]. split; [|split; [|reflexivity]].
     - intros x Lx. unfold w1. cbn [walloc w_nodes]. apply upd_other. lia.
     - intros INC x nx y Lx Ex IN. unfold w1 in Ex. cbn [walloc w_nodes] in Ex. unfold upd in Ex. destruct (x =? w_next w).
       + injection Ex as <-. destruct IN.
@@ -143,7 +143,7 @@ Proof.
         end) l wk = Val (r, wk') /\ dc N0 w wk' /\ c < w_next wk').
   { induction l as [|it rest IHl]; intros wk Dk (nk & Ek & ETk & NMk) SUB.
     - exists (OK tt), wk. split; [reflexivity|]. split; [exact Dk|]. destruct Dk as (Ck & _). apply (cl_alloc _ _ _ _ Ck). congruence.
-    - pose proof Dk as (Ck & Xk & Fk & Ik).
+    - pose proof Dk as (Ck & Xk & Fk & Ik & Mk).
       assert (Lck : c < w_next wk) by (apply (cl_alloc _ _ _ _ Ck); congruence).
       pose proof (cl_node _ _ _ _ Ck _ _ Ek) as (_ & _ & KIDk & CDk & POk).
       assert (SUBr : forall it0, In it0 rest -> In it0 (n_content n)) by (intros it0 H0; apply SUB; right; exact H0).
@@ -160,7 +160,7 @@ Proof.
         destruct (IH s wk N0 Ck ltac:(destruct Xk as (A & _); lia) Lsk Hs) as (r3 & w3 & E3 & D3 & R3).
         unfold wbind at 1. rewrite (wtry_val _ _ _ _ E3).
         assert (Dk3 : dc N0 w w3) by (eapply dc_trans; [exact Dk|exact D3]).
-        pose proof D3 as (C3 & X3 & F3 & _).
+        pose proof D3 as (C3 & X3 & F3 & _ & _).
         assert (Ec3 : w_nodes w3 c = Some nk) by (rewrite (F3 c Lck); exact Ek).
         destruct r3 as [cs|e3]; [|apply IHl; eauto].
         destruct R3 as (Lcs1 & Lcs2).
